@@ -515,7 +515,18 @@ class _GetHook:
     return 'GETHOOK'
 
 
-HOOKS = {'@GETHOOK': _GetHook()}
+class _SetHook:
+  """A user set-hook (metadata `on_set_value`), deliberately not idempotent: it acts on user assignments
+  `v.value = ...` and on nothing else."""
+
+  def __call__(self, var, value):
+    return value + 1
+
+  def __repr__(self):
+    return 'SETHOOK'
+
+
+HOOKS = {'@GETHOOK': _GetHook(), '@SETHOOK': _SetHook()}
 
 
 def apply_build_op(h: Heap, op, res=None):
